@@ -1237,3 +1237,105 @@ func sweeperAfterFailedPass(out *AreaOut) error {
 	}
 	return nil
 }
+
+// v1DeletionScenario (C18, C04, C10; fixed inputs, no random choices): a format-version-1 snapshot, in which an
+// EMPTY value denotes a deletion, merged into an LMDB that holds an older live version of one of the keys:
+// the entries are stored as deletion markers (flag set, no value), the live key leaves the application's view, and
+// merging the same snapshot again commits nothing (native mode).
+func v1DeletionScenario(out *AreaOut) error {
+	for _, native := range []bool{true, false} {
+		out.OracleN++
+		env, cleanup, err := newEnv()
+		if err != nil {
+			return err
+		}
+		base := uint64(1700000000000000000)
+		setClock(base)
+		if err := applyApp(env, native, base-5000, []appOp{{DBI: "app", Key: []byte("a"), Val: []byte("x")}, {DBI: "app", Key: []byte("keep"), Val: []byte("k")}}); err != nil {
+			cleanup()
+			return err
+		}
+		sy, err := newSyncer(env, memory.New(), syncerOpts{Native: native, Instance: "a"})
+		if err != nil {
+			cleanup()
+			return err
+		}
+		ctx := context.Background()
+		id0, err := sy.SendOnce(ctx, env) // shadow mode: captures the application's state
+		if err != nil {
+			cleanup()
+			return err
+		}
+		sn := buildSnapshot(1, 1, "b", base+10, []snapDBI{{Name: "app", Entries: []snapshot.KV{
+			{Key: []byte("a"), Value: nil, TimestampNano: base + 5},
+			{Key: []byte("b"), Value: nil, TimestampNano: base + 6},
+			{Key: []byte("c"), Value: []byte("v"), TimestampNano: base + 7},
+		}}})
+		upd := func() snapshot.Update {
+			return snapshot.Update{Snapshot: sn, NameInfo: snapshot.NameInfo{Kind: snapshot.KindSnapshot, InstanceID: "b", SyncerName: dbName, Timestamp: time.Unix(0, int64(base+10))}}
+		}
+		setClock(base + 1000)
+		id1, _, lerr := sy.LoadOnce(ctx, env, "b", upd(), id0)
+		dataDBI := "app"
+		if !native {
+			dataDBI = shadowPrefix + "app"
+		}
+		bad := ""
+		if lerr != nil {
+			bad = "LoadOnce of a format-version-1 snapshot failed: " + lerr.Error()
+		}
+		read := func(dbi, key string) ([]byte, bool) {
+			var v []byte
+			ok := false
+			_ = env.View(func(txn *lmdb.Txn) error {
+				d, err := txn.OpenDBI(dbi, 0)
+				if err != nil {
+					return nil
+				}
+				b, err := txn.Get(d, []byte(key))
+				if err == nil {
+					v, ok = append([]byte{}, b...), true
+				}
+				return nil
+			})
+			return v, ok
+		}
+		for _, k := range []string{"a", "b"} {
+			v, ok := read(dataDBI, k)
+			lv, pok := logical(v)
+			if bad == "" && (!ok || !pok || !lv.Del || len(lv.Val) != 0) {
+				bad = fmt.Sprintf("key %q (empty value in a format-1 snapshot = deletion) is stored as %x (present=%v): not a deletion marker", k, v, ok)
+			}
+		}
+		if v, ok := read(dataDBI, "c"); bad == "" {
+			if lv, pok := logical(v); !ok || !pok || lv.Del || string(lv.Val) != "v" {
+				bad = fmt.Sprintf("live entry c of the format-1 snapshot is stored as %x (present=%v)", v, ok)
+			}
+		}
+		if !native && bad == "" {
+			if _, ok := read("app", "a"); ok {
+				bad = "key a, deleted by the format-1 snapshot at a newer timestamp, is still in the application's DBI"
+			}
+		}
+		mode := map[bool]string{true: "native", false: "shadow"}[native]
+		if bad != "" {
+			for _, pid := range []string{"C18", "C04"} {
+				out.Oracle = append(out.Oracle, OracleFailure{pid, "v1-empty-value-is-a-deletion", mode + " mode: " + bad, nil})
+			}
+		}
+		// the same snapshot again, nothing changed locally
+		if lerr == nil && native {
+			i0, _ := env.Info()
+			setClock(base + 2000)
+			_, _, lerr2 := sy.LoadOnce(ctx, env, "b", upd(), id1)
+			i1, _ := env.Info()
+			if lerr2 == nil && i0 != nil && i1 != nil && i1.LastTxnID != i0.LastTxnID {
+				out.Oracle = append(out.Oracle, OracleFailure{"C10", "noop-load", fmt.Sprintf("native mode: merging the same format-1 snapshot (two deletions, one live entry) a second time committed a transaction (LastTxnID %d -> %d)", i0.LastTxnID, i1.LastTxnID), nil})
+			}
+		}
+		cleanup()
+		hist(out.Hist, "format-1-deletions/"+mode)
+	}
+	syncer.VerifSetClock(nil)
+	return nil
+}
